@@ -7,7 +7,9 @@ P = Ph); P = Pf when Ph = Po; rescaled counts sum to n and are >= 0; realised nu
 lower / upper bound = round(n * P) (guard: the mapped middle values are strictly inside the bounds); when the two counts
 over-claim, the realised counts are the PROPORTIONALLY rescaled ones (`rescaled_ok`, `Props.C11.scale_proportional`);
 in running-window mode the window of every `_apply_on_window` call is recomputed by the harness from each series' own
-time axis (`own_window_indices`; twin calendars: equal length and first day of year, leap years placed differently).
+time axis (`own_window_indices`; twin calendars: equal length and first day of year, leap years placed differently);
+calls WITHOUT (or with partial) time information are judged on the documented inferred calendar — each undated series
+on consecutive days from 1950-01-01 (`timeless_cases`, `INFERRED_START`; Model/InferredDates.lean).
 """
 import contextlib
 import math
@@ -21,6 +23,8 @@ from harness import common as C
 PROP = "C11"
 TARGETS = ["IbicusModel.Props.C11"]
 GEN = ["IsimipFreq"]
+TARGETS += ["IbicusModel.Lemmas.GenIsimipStep6"]  # tier A of ISIMIP step 6 (`_step6_adjust_values_between_thresholds`: fixed fit arguments from the has_* flags, fallback structure; `step6`; `_apply_on_window`)
+GEN += ["IsimipStep6"]  # Gen.IsimipStep6: symbolic reading by translator/extract_isimip_step6.py
 
 FTOL = 1e-9  # float tolerance of the correspondence (|impl - model| <= FTOL * (1 + scale), scale <= 1 for frequencies)
 
@@ -794,17 +798,28 @@ def _pipeline_run(fi, problems, res, cs=None):
     obs, cmh, cmf = (np.array(fi[k], dtype=float) for k in ("obs", "cm_hist", "cm_future"))
     lo, hi = float(deb.lower_bound), float(deb.upper_bound)
     short = {k: v for k, v in fi.items()}
+    # call form WITHOUT time information (`timeless_cases`): `time_given[k]` false -> that time argument is not passed
+    # (omitted / None) and the library infers it.  The harness keeps judging on t_o / t_h / t_f, which for such a series
+    # is the DOCUMENTED inferred calendar (`INFERRED_START` + k days, a function of the series' length only).
+    given = fi.get("time_given") or [True, True, True]
+    a_o, a_h, a_f = (t if g else None for t, g in zip((t_o, t_h, t_f), given))
+    omit = bool(fi.get("time_omitted"))  # arguments left out altogether rather than passed as None
+    tnote = "" if all(given) else ("; series given WITHOUT time information [" + ", ".join(
+        n for n, g in zip(("obs", "cm_hist", "cm_future"), given) if not g) + f"]: the documented inferred calendar, consecutive days from {INFERRED_START}")
 
     def call(path):
         np.random.seed(fi["numpy_seed"])  # step 4 randomises the values beyond the thresholds
         with warnings.catch_warnings(), np.errstate(all="ignore"):
             warnings.simplefilter("ignore")
+            kw_t = {k: v for k, v in (("time_obs", a_o), ("time_cm_hist", a_h), ("time_cm_future", a_f)) if not (omit and v is None)}
             if path == "apply_location":
-                o = deb.apply_location(obs.copy(), cmh.copy(), cmf.copy(), t_o, t_h, t_f)
+                if all(given):
+                    o = deb.apply_location(obs.copy(), cmh.copy(), cmf.copy(), t_o, t_h, t_f)
+                else:
+                    o = deb.apply_location(obs.copy(), cmh.copy(), cmf.copy(), **kw_t)
             else:
-                o = deb.apply(obs.copy()[:, None, None], cmh.copy()[:, None, None], cmf.copy()[:, None, None], time_obs=t_o,
-                              time_cm_hist=t_h, time_cm_future=t_f, progressbar=False, parallel=(path == "apply-parallel"),
-                              nr_processes=2)[:, 0, 0]
+                o = deb.apply(obs.copy()[:, None, None], cmh.copy()[:, None, None], cmf.copy()[:, None, None],
+                              progressbar=False, parallel=(path == "apply-parallel"), nr_processes=2, **kw_t)[:, 0, 0]
         return np.asarray(o, dtype=float)
 
     serial_path = "apply_location" if fi["path"] == "apply_location" else "apply"
@@ -869,7 +884,7 @@ def _pipeline_run(fi, problems, res, cs=None):
                 if not ok:
                     problems.append((f"{serial_path} (running-window mode): outputs of the window around day {c} at the lower/upper bound != "
                                      "round(n * P) of the original series in that window (window = the time steps of each series whose "
-                                     "day of year lies within length//2 of the centre, from the time axes passed in)",
+                                     "day of year lies within length//2 of the centre, from the time axes passed in" + tnote + ")",
                                      {**short, "dispatch": serial_path, "window_call": k, "window_name": f"window centre {c}", **info}))
                     return
     if not guard or not calls:
@@ -898,7 +913,7 @@ def _pipeline_run(fi, problems, res, cs=None):
             res.count(("pipeline", var, adj, mode, path, bool(fi.get("near")), info["round(n*P_lower)"] * 5 // (info["n"] + 1)), True)
             if not ok:
                 problems.append((f"{path} ({mode} mode): outputs at the lower/upper bound in a window != round(n * P) of the "
-                                 "original series in that window (windows from the time axes passed in)",
+                                 "original series in that window (windows from the time axes passed in" + tnote + ")",
                                  {**short, "dispatch": path, "window_name": name, **info}))
                 return
 
@@ -1026,6 +1041,87 @@ def twin_calendar_cases(rng, count, problems, res):
             res.extra["pipeline_skipped"] += 1
             problems.append((f"{path} ({mode} mode, twin calendars) raises {type(ex).__name__} on well-formed series ({str(ex)[:100]})",
                              {**fi, "exception": type(ex).__name__}))
+
+
+# ------------------------------------------------------------------ 6a. the call form without time information
+# The calendar a series gets when its time argument is not given: `n` consecutive days from 1 January 1950 (ISIMIP
+# docstring: 'inferred, assuming the first value in obs, cm_hist and cm_future always corresponds to a January 1st';
+# `create_array_of_consecutive_dates(n, start_date=1950-01-01)`; Model/InferredDates.lean `dateOf`, Model/Contract.lean
+# `inferTime`: only the MISSING arrays are inferred, each from the length of its own series, a given one is untouched).
+INFERRED_START = "1950-01-01"
+
+
+def timeless_cases(rng, count, problems, res):
+    """Quantifier: 'all series … and lengths' (`observe_at`: apply_location with running_window_mode=False) for the
+    CALL FORM the other generators never use — obs / cm_hist / cm_future handed over WITHOUT time information (all three
+    time arguments, or any subset of them, omitted or None) through apply_location, serial and parallel apply.  The
+    'window' of the count clause is then a calendar month (or running window) of the documented inferred calendar:
+    every series whose time argument is missing lies on consecutive days from 1950-01-01, whatever the other series
+    are.  Series of 2-11 years (the leap days of 1952, 1956, 1960 fall inside), lengths equal or unequal, whole years
+    or not; the beyond-threshold frequency varies from block to block, so a window that is off by one day holds other
+    values.  Judged by `_pipeline_run` (1b)/(2): windows computed by the harness with Python's `datetime`, P from the
+    original series."""
+    import datetime
+
+    for key in ("pipeline_runs", "pipeline_skipped", "timeless_runs"):
+        res.extra.setdefault(key, 0)
+    for i in range(count):
+        var = VARS[i % 3]
+        adj = 0 if rng.random() < 0.2 else 1
+        mode = "window" if i % 3 == 2 else "month"
+        path = ["apply_location", "apply_location", "apply", "apply_location", "apply-parallel", "apply"][i % 6]
+        coarse = rng.random() < 0.25
+        given = list(rng.choice([(False, False, False)] * 5 + [(True, True, False), (False, False, True), (True, False, False), (False, True, False)]))
+        fi = {"kind": "pipeline", "coarse_resolution": coarse, "variable": var, "adjust": adj, "sequence": rng.random() < 0.3, "mode": mode, "path": path,
+              "near": None, "numpy_seed": rng.randint(0, 2**31 - 1), "time_given": given, "time_omitted": rng.random() < 0.5}
+        same_len = rng.random() < 0.4  # all three series of one length (the usual shape of a call without dates)
+        years = rng.randint(2, 10)
+        starts, n_days = [], []
+        for k, y0 in enumerate((1980, 1981, 2050)):
+            if not same_len:
+                years = rng.randint(2, 10)
+            if given[k]:
+                starts.append(datetime.date(y0 + rng.randint(0, 3), *rng.choice([(1, 1), (1, 1), (10, 1), (rng.randint(1, 12), rng.randint(1, 28))])).isoformat())
+            else:
+                starts.append(INFERRED_START)
+            n_days.append(rng.choice([365 * years, 365 * years, 365 * years + (years + 1) // 4, 365 * years + rng.randint(-150, 200)]))
+        if same_len:
+            n_days = [n_days[0]] * 3
+        fi["start"], fi["n_days"] = starts, n_days
+        if mode == "window":
+            fi["window"], fi["step"] = rng.choice([(31, 31), (31, 31), (45, 45), (31, 9), (61, 21)])
+        if rng.random() < 0.2:  # the same instance has served explicitly dated series of the same lengths before
+            fi["prior_call"] = {"year_shift": [rng.choice([31, 33, 101]) for _ in range(3)]}
+        times = _pipeline_times(fi)
+        with warnings.catch_warnings():
+            warnings.simplefilter("ignore")
+            deb = _deb(var, adj)
+        two = has_ut(deb)
+        for name, t, sc in zip(("obs", "cm_hist", "cm_future"), times, [1.0, rng.choice([0.7, 1.0, 1.3]), rng.choice([0.8, 1.2, 1.5])]):
+            base_lo = rng.choice([0.15, 0.3, 0.45])
+            amp = rng.choice([0.1, 0.3, 0.5])
+            block = rng.choice([5, 7, 16, 30, 45])
+            base_hi = rng.choice([0.0, 0.05, 0.2]) if two else 0.0
+            doy = own_days_of_year(t)
+            x = np.zeros(t.size)
+            for b in range(0, 366 // block + 1):
+                idx = np.where(doy // block == b)[0]
+                if idx.size:
+                    x[idx] = gen_series(rng, var, deb, idx.size, min(0.95, max(0.0, base_lo + amp * (1 if b % 2 else -1) * base_lo / 0.45)), base_hi,
+                                        wet_scale=sc, coarse=coarse and (name == "cm_future" or rng.random() < 0.5))
+            fi[name] = x.tolist()
+        try:
+            _pipeline_run(fi, problems, res)
+            res.extra["pipeline_runs"] += 1
+            res.extra["timeless_runs"] += 1
+            res.count(("timeless", var, adj, mode, path, tuple(given), same_len, fi["time_omitted"], tuple(min(n // 365, 6) for n in n_days)), True,
+                      sample={k: v for k, v in fi.items() if not isinstance(v, list) or k in ("start", "n_days", "time_given")})
+        except Exception as ex:  # noqa: BLE001
+            if not raised_in_real_code(ex):
+                raise
+            res.extra["pipeline_skipped"] += 1
+            problems.append((f"{path} ({mode} mode, called without time information for {[n for n, g in zip(('obs', 'cm_hist', 'cm_future'), given) if not g]}) "
+                             f"raises {type(ex).__name__} on well-formed series ({str(ex)[:100]})", {**fi, "exception": type(ex).__name__}))
 
 
 # ------------------------------------------------------------------ 6b. over-claiming frequencies on double-bounded variables
@@ -1289,6 +1385,10 @@ def run(tier, res, force_search=False):
         "frequencies are exact rationals; float rounding of size*P exactly at a half may go either way (driver flags it, counted as ties_accepted)",
         "masks / series are non-empty (numpy yields NaN on an empty mask and round() raises)",
         "guard of the realised-count clause: the mapped middle values are strictly inside the bounds (checked on the recorded values; excluded runs are counted)",
+        "a series handed over without its time argument lies on the documented inferred calendar: n consecutive days from 1950-01-01, a function "
+        "of its own length only (ISIMIP docstring 'first value corresponds to a January 1st'; create_array_of_consecutive_dates' default start; "
+        "Model/InferredDates.lean tied by C02's DrvInferredDates, Gen.Contract.infer_time = Model.Contract.inferTime in C14); the oracle "
+        "computes months / days of year of that calendar with Python's datetime",
     ]
 
     lean_ok = C.lean_phase(res, PROP, GEN, TARGETS)
@@ -1318,6 +1418,8 @@ def run(tier, res, force_search=False):
     # own random streams (the cases above keep theirs): over-claiming pairs of frequency triples; twin calendars
     overclaim_cases(random.Random(C.seed() * 104729 + 1111), (90 if quick else 900) * boost, 80 if quick else 300, problems, res)
     twin_calendar_cases(random.Random(C.seed() * 104729 + 1112), (5 if quick else 30) * boost, problems, res)
+    # own stream: the call form without (or with partial) time information, judged on the documented inferred calendar
+    timeless_cases(random.Random(C.seed() * 104729 + 1114), (12 if quick else 60) * boost, problems, res)
 
     mismatches = []
     try:
